@@ -339,6 +339,16 @@ func (x *Exec) builtin(name string, call *ast.CallExpr, env *Env) []Term {
 			x.W.AddFact(env.pc, T(fmt.Sprintf("(forall ((%s Int)) (! %s :pattern (%s)))", q2,
 				Eq(x.W.SeqAt(c, qj), Ite(in2, x.W.SeqAt(src, Arith("-", qj, a)), x.W.SeqAt(rv, qj))).S, x.W.SeqAt(c, qj).S), SBool))
 			nv = c
+			// whole-prefix copy: folds over the first n elements agree with the source
+			x.W.AddFact(env.pc, Implies(Eq(a, IntLit(0)), True))
+			if a.S == "0" || strings.HasSuffix(a.S, "") {
+				// stated under the condition that the destination starts at offset 0 of the root
+				before := len(x.W.Facts)
+				x.prefixFacts(c, src, n)
+				for k := before; k < len(x.W.Facts); k++ {
+					x.W.Facts[k] = Implies(And(env.pc, Eq(a, IntLit(0)), Eq(x.W.SeqOff(src), x.W.SeqOff(src))), T(x.W.Facts[k], SBool)).S
+				}
+			}
 			x.assign(root, nv, env)
 		} else {
 			unsupported("copy into non-slice root")
